@@ -321,6 +321,11 @@ func runC04(c *Ctx) {
 	c.sites++
 	c.Check(fname(pth)+"#index-only-if-challenge-matches", pth.Pos(), okP, ifelse(okP, "index returned only under hmac.Equal(s, H2(transcript)), H1 over the message", "ProofToHash returns an index without the recomputed challenge matching the proof's, or not over the message"))
 
+	// ------------------------------------------------------------ B5
+	c.Rule("C04.B5", "SHAPE", "the proposer priority is the largest hash over the winner's seats: computePriority runs its counter from a constant start to the seat count j in steps of one, every candidate is Keccak(VRF output ‖ seat number), and the running maximum is replaced exactly when the candidate compares greater and is what the function returns")
+	c.Min(3)
+	c04B5(c, w)
+
 	// ------------------------------------------------------------ B4
 	c.Rule("C04.B4", "SHAPE", "every return of choose is the constant 0, w.Int64(), a loop index, search(n, ·) or n − search(n, ·); search returns its lower bound i which only moves between 0 and n")
 	c.Min(2)
@@ -410,6 +415,197 @@ func runC04(c *Ctx) {
 	c.Check(fname(choose)+"#upper-tail-complement-exact", choose.Pos(), okPrec, ifelse(okPrec, "the mirrored search compares a complement formed with big.Float.Sub before rounding; no float64 subtraction takes a rounded big.Float", "the complement 1 − ratio is (also) formed in float64 from the already rounded ratio ("+lossy+"): for a VRF output within 2^-53 of the maximum it is 0, and the mirrored search returns a seat count far above the binomial quantile"))
 }
 
+// c04B5: the proposer priority is the largest hash over the winner's seats.
+func c04B5(c *Ctx, w *World) {
+	cp := w.Fn(uconPkg, "", "computePriority")
+	c.sawFunc(fname(cp))
+	hashP, jP := ssa.Value(cp.Params[0]), ssa.Value(cp.Params[1])
+	var kec *ssa.Call
+	for _, ci := range callInstrs(cp) {
+		if o := calleeObj(ci); o != nil && strings.HasPrefix(o.Name(), "Keccak256") {
+			if cc, ok := ci.(*ssa.Call); ok {
+				kec = cc
+			}
+		}
+	}
+	if kec == nil {
+		c.Undecided(fname(cp)+"#max-over-seats", cp.Pos(), "no Keccak call found in computePriority")
+		return
+	}
+	// (1) loop bound: counter.Cmp(j) <= 0 (or < 0) decides whether the loop goes on, the counter starts at a constant and grows by one
+	boundOK, counterOK := false, false
+	var counter ssa.Value
+	for _, ci := range callInstrs(cp) {
+		o := calleeObj(ci)
+		if o == nil || o.Name() != "Cmp" || recvName(o) != "Int" {
+			continue
+		}
+		if stripConvNoBind(callArgs(ci)[0]) != jP {
+			continue
+		}
+		for _, r := range *ci.Value().Referrers() {
+			if bo, ok := r.(*ssa.BinOp); ok && (bo.Op == token.LEQ || bo.Op == token.LSS) {
+				if n, isC := constInt(bo.Y); isC && n == 0 && isLoopHeader(ci.Block()) {
+					boundOK = true
+					counter = callRecv(ci)
+				}
+			}
+		}
+	}
+	if phi, ok := counter.(*ssa.Phi); ok {
+		init, step := false, false
+		for _, e := range phi.Edges {
+			if cc, ok := stripConvNoBind(e).(*ssa.Call); ok && calleeObj(cc) != nil {
+				switch calleeObj(cc).Name() {
+				case "NewInt":
+					if n, isC := constInt(cc.Call.Args[0]); isC && (n == 0 || n == 1) {
+						init = true
+					}
+				case "Add":
+					// counter + 1: the other operand is Big1(), NewInt(1) or a global named big1/Big1
+					args := callArgs(cc)
+					if len(args) == 2 {
+						for k, a := range args {
+							if stripConvNoBind(a) != ssa.Value(phi) {
+								continue
+							}
+							one := false
+							switch y := stripConvNoBind(args[1-k]).(type) {
+							case *ssa.Call:
+								if oo := calleeObj(y); oo != nil {
+									if oo.Name() == "Big1" {
+										one = true
+									}
+									if oo.Name() == "NewInt" {
+										if n, isC := constInt(y.Call.Args[0]); isC && n == 1 {
+											one = true
+										}
+									}
+								}
+							case *ssa.UnOp:
+								if g, isG := y.X.(*ssa.Global); isG && strings.EqualFold(g.Name(), "big1") {
+									one = true
+								}
+							}
+							if one {
+								step = true
+							}
+						}
+					}
+				}
+			}
+		}
+		counterOK = init && step
+	}
+	c.sites++
+	c.Check(fname(cp)+"#iterates-all-seats", cp.Pos(), boundOK && counterOK, ifelse(boundOK && counterOK, "the counter runs from a constant start up to j in steps of one", "the loop of computePriority does not run its counter from the start up to the seat count j: seats are left out (or others included) and the priority is not the maximum over the winner's seats"))
+	// (2) each candidate is Keccak(hash ‖ counter)
+	inHash := derivesFrom(kec.Call.Args[0], func(v ssa.Value) bool { return v == hashP })
+	inCtr := counter != nil && derivesFrom(kec.Call.Args[0], func(v ssa.Value) bool { return v == counter })
+	c.sites++
+	c.Check(fname(cp)+"#candidate-binds-hash-and-seat", kec.Pos(), inHash && inCtr, ifelse(inHash && inCtr, "each candidate hashes the VRF output together with the seat number", fmt.Sprintf("the candidate hash does not cover both the VRF output and the seat number (hash=%v seat=%v)", inHash, inCtr)))
+	// (3) the running maximum is replaced exactly when the candidate is greater, and the hash is kept with its integer
+	gt := false
+	for _, ci := range callInstrs(cp) {
+		o := calleeObj(ci)
+		if o == nil || o.Name() != "Cmp" || recvName(o) != "Int" || stripConvNoBind(callArgs(ci)[0]) == jP {
+			continue
+		}
+		// "is the candidate of this iteration": derives from the Keccak result without passing a phi (the running
+		// maximum derives from earlier candidates through the loop phi)
+		direct := func(v ssa.Value) bool {
+			found := false
+			backward(v, func(x ssa.Value) bool {
+				if x == ssa.Value(kec) {
+					found = true
+				}
+				_, isPhi := x.(*ssa.Phi)
+				return !isPhi && !found
+			})
+			return found
+		}
+		candRecv := direct(callRecv(ci))
+		candArg := direct(callArgs(ci)[0])
+		for _, r := range *ci.Value().Referrers() {
+			bo, ok := r.(*ssa.BinOp)
+			if !ok {
+				continue
+			}
+			n, isC := constInt(bo.Y)
+			if !isC || n != 0 {
+				continue
+			}
+			if (candRecv && !candArg && bo.Op == token.GTR) || (candArg && !candRecv && bo.Op == token.LSS) {
+				// the branch taken on true carries the candidate into the returned value and into the running integer maximum
+				other := callArgs(ci)[0]
+				if candArg {
+					other = callRecv(ci)
+				}
+				for _, rr := range *bo.Referrers() {
+					ifi, ok := rr.(*ssa.If)
+					if !ok {
+						continue
+					}
+					tb := ifi.Block().Succs[0]
+					underTb := func(b *ssa.BasicBlock) bool { return b == tb || tb.Dominates(b) }
+					fromCand := direct
+					hashKept, intKept := false, false
+					for _, b := range cp.Blocks {
+						ret, ok := b.Instrs[len(b.Instrs)-1].(*ssa.Return)
+						if !ok || b == cp.Recover {
+							continue
+						}
+						rv := stripConvNoBind(ret.Results[0])
+						if u, isU := rv.(*ssa.UnOp); isU {
+							if a, isA := u.X.(*ssa.Alloc); isA {
+								// the returned variable: besides its zero initialisation it is stored only under tb, with the candidate
+								okStores, n := true, 0
+								for _, r := range *a.Referrers() {
+									st, isSt := r.(*ssa.Store)
+									if !isSt || st.Addr != ssa.Value(a) {
+										continue
+									}
+									if st.Block() == cp.Blocks[0] {
+										continue
+									}
+									n++
+									if !underTb(st.Block()) || !fromCand(st.Val) {
+										okStores = false
+									}
+								}
+								hashKept = okStores && n > 0
+							}
+						}
+						if phi, isPhi := rv.(*ssa.Phi); isPhi {
+							for i, e := range phi.Edges {
+								if fromCand(e) && underTb(phi.Block().Preds[i]) {
+									hashKept = true
+								}
+							}
+						}
+					}
+					for _, in := range allInstrs(cp) {
+						phi, isPhi := in.(*ssa.Phi)
+						if !isPhi || !isBigIntPtr(phi.Type()) {
+							continue
+						}
+						for i, e := range phi.Edges {
+							if fromCand(e) && underTb(phi.Block().Preds[i]) && derivesFrom(other, func(x ssa.Value) bool { return x == ssa.Value(phi) }) {
+								intKept = true
+							}
+						}
+					}
+					if hashKept && intKept {
+						gt = true
+					}
+				}
+			}
+		}
+	}
+	c.sites++
+	c.Check(fname(cp)+"#keeps-the-greater", cp.Pos(), gt, ifelse(gt, "the candidate replaces the running maximum exactly when it compares greater, and it is what the function returns", "computePriority does not keep the greater of candidate and running maximum (comparison direction, or the value carried to the return): the priority that verifies is not the largest hash over the seats, so a proposer can claim a priority it does not hold or the honest maximum is rejected"))
+}
+
 func allInstrs(fn *ssa.Function) []ssa.Instruction {
 	var out []ssa.Instruction
 	for _, b := range fn.Blocks {
@@ -466,6 +662,9 @@ func chooseReturnShape(v ssa.Value, search *ssa.Function, seen map[ssa.Value]boo
 func c04Variants() []Variant {
 	f := "consensus/ucon/sortition.go"
 	return []Variant{
+		{Name: "priority-keeps-smaller", File: "consensus/ucon/sortition.go", Old: "		if hashInt.Cmp(maxInt) > 0 {\n			maxInt = hashInt", New: "		if hashInt.Cmp(maxInt) < 0 || maxInt.Sign() == 0 {\n			maxInt = hashInt", Rule: "C04.B5", Construct: "keeps-the-greater"},
+		{Name: "priority-skips-last-seat", File: "consensus/ucon/sortition.go", Old: "i.Cmp(j) <= 0; i = new(big.Int).Add(i, common.Big1())", New: "i.Cmp(j) <= 0; i = new(big.Int).Add(i, big.NewInt(2))", Rule: "C04.B5", Construct: "iterates-all-seats"},
+		{Name: "priority-ignores-seat", File: "consensus/ucon/sortition.go", Old: "		concat = append(concat, i.Bytes()...)\n", New: "", Rule: "C04.B5", Construct: "candidate-binds-hash-and-seat"},
 		{Name: "message-without-role", File: f, Old: "	copy(m[32:36], uint32ToBytes(role))\n", New: "	copy(m[32:36], uint32ToBytes(index))\n", Rule: "C04.B1", Construct: "MakeM"},
 		{Name: "overlapping-ranges", File: f, Old: "	copy(m[36:], uint32ToBytes(index))", New: "	copy(m[34:], uint32ToBytes(index))", Rule: "C04.B1", Construct: "MakeM"},
 		{Name: "seat-count-not-compared", File: f, Old: "	if j <= 0 {\n		return false, fmt.Errorf(\"not a validator.\")\n	}\n	if uint32(j) != subUsers {\n		return false, fmt.Errorf(\"sub-users' number is not correct:%x,%x\", j, subUsers)\n	}\n", New: "	if j <= 0 {\n		return false, fmt.Errorf(\"not a validator.\")\n	}\n	_ = subUsers\n", Rule: "C04.B3", Construct: "VrfVerifySortition"},
